@@ -84,7 +84,7 @@ def h_by_ranges(ctx, t_chroms, q_chroms, mode, keep_empty, case=None):
     try:
         res = [(tuple(b), rows_t(sub)) for b, sub in table.by_ranges(queries, mode=mode, keep_empty=keep_empty)]
     except Exception as exc:
-        ctx.claim(False, f"by_ranges raised {type(exc).__name__}")
+        claim_raised(ctx, "by_ranges", exc)
         return
     ctx.observe("res", [[list(b[:3]), [list(r[:3]) for r in sub]] for b, sub in res])
     yielded = [b[3] for b, _ in res]
@@ -149,7 +149,7 @@ def h_in_range(ctx, t_chroms, mode, use_start, use_end, chrom_arg):
     try:
         out = rows_t(table.in_range(chrom, start, end, mode))
     except Exception as exc:
-        ctx.claim(False, f"in_range raised {type(exc).__name__}")
+        claim_raised(ctx, "in_range", exc)
         return
     ctx.observe("rows", [list(r[:3]) for r in out])
     qs = start if use_start else 0
@@ -210,7 +210,7 @@ def h_in_ranges(ctx, t_chroms, mode, nq, case=None):
     try:
         out = rows_t(table.in_ranges("chr1", starts, ends, mode))
     except Exception as exc:
-        ctx.claim(False, f"in_ranges raised {type(exc).__name__}")
+        claim_raised(ctx, "in_ranges", exc)
         return
     ctx.observe("rows", [list(r[:3]) for r in out])
     # expected: concatenation over queries (in the order given) of the selections
@@ -251,7 +251,7 @@ def h_intersection(ctx, t_chroms, q_chroms, mode, case=None):
         ctx.cover("nothing-selected")
         return
     except Exception as exc:
-        ctx.claim(False, f"intersection raised {type(exc).__name__}")
+        claim_raised(ctx, "intersection", exc)
         return
     ctx.observe("rows", [list(r[:3]) for r in out])
     exp = []
@@ -289,7 +289,7 @@ def h_iter_ranges_of(ctx, t_chroms, q_chroms, mode, keep_empty, case=None):
     try:
         res = [list(s) for s in table.iter_ranges_of(queries, "gene", mode=mode, keep_empty=keep_empty)]
     except Exception as exc:
-        ctx.claim(False, f"iter_ranges_of raised {type(exc).__name__}")
+        claim_raised(ctx, "iter_ranges_of", exc)
         return
     ctx.observe("res", res)
     exp = []
@@ -344,7 +344,7 @@ def h_into_ranges(ctx, t_chroms, q_chroms, kind, case=None):
     try:
         res = list(table.into_ranges(queries, "val", default, func))
     except Exception as exc:
-        ctx.claim(False, f"into_ranges raised {type(exc).__name__}")
+        claim_raised(ctx, "into_ranges", exc)
         return
     ctx.observe("res", res)
     ctx.claim(len(res) == len(Q), "into_ranges: one value per query range")
